@@ -36,6 +36,37 @@ type c20Case struct {
 	TsFirst bool     `json:"ts_first"`   // column order (ts, id, g) instead of (id, ts, g)
 	Filter  string   `json:"filter,omitempty"` // "" | eq | ne | lt | ge: WHERE w.g <op> FK above the function
 	FK      int64    `json:"fk,omitempty"`
+	Spell   int      `json:"interval_spelling,omitempty"` // how the INTERVAL literals are written: see spellInterval
+}
+
+// spellInterval writes the same duration in one of several equivalent spellings: plain nanoseconds, zero-padded count,
+// the largest unit that divides it (singular or plural, any letter case), or that unit with a zero-padded count.
+func spellInterval(ns int64, style int) string {
+	units := []struct {
+		name string
+		ns   int64
+	}{{"DAY", 86400e9}, {"HOUR", 3600e9}, {"MINUTE", 60e9}, {"SECOND", 1e9}, {"MILLISECOND", 1e6}, {"MICROSECOND", 1e3}, {"NANOSECOND", 1}}
+	switch style % 5 {
+	case 1:
+		return fmt.Sprintf("INTERVAL 0%d NANOSECONDS", ns)
+	case 2, 3, 4:
+		for _, u := range units {
+			if ns != 0 && ns%u.ns == 0 {
+				name := u.name
+				switch style % 5 {
+				case 2:
+					name += "S"
+				case 3:
+					name = strings.ToLower(name)
+				}
+				if style%5 == 4 {
+					return fmt.Sprintf("INTERVAL 00%d %s", ns/u.ns, name)
+				}
+				return fmt.Sprintf("INTERVAL %d %s", ns/u.ns, name)
+			}
+		}
+	}
+	return fmt.Sprintf("INTERVAL %d NANOSECONDS", ns)
 }
 
 var c20Ops = map[string]string{"eq": "=", "ne": "<>", "lt": "<", "ge": ">="}
@@ -80,13 +111,13 @@ func (c c20Case) String() string {
 func (c c20Case) sql() string {
 	res := ""
 	if c.Res != 0 {
-		res = fmt.Sprintf(", resolution=>INTERVAL %d NANOSECONDS", c.Res)
+		res = ", resolution=>" + spellInterval(c.Res, c.Spell/5)
 	}
 	where := ""
 	if c.Filter != "" {
 		where = fmt.Sprintf(" WHERE w.g %s %d", c20Ops[c.Filter], c.FK)
 	}
-	return fmt.Sprintf("SELECT * FROM max_diff_watermark(source=>TABLE(mem.t), max_diff=>INTERVAL %d NANOSECONDS, time_field=>DESCRIPTOR(ts)%s) w%s", c.MaxDiff, res, where)
+	return fmt.Sprintf("SELECT * FROM max_diff_watermark(source=>TABLE(mem.t), max_diff=>%s, time_field=>DESCRIPTOR(ts)%s) w%s", spellInterval(c.MaxDiff, c.Spell), res, where)
 }
 
 func (c c20Case) table() (*eng.Table, int) {
@@ -283,6 +314,8 @@ func c20Prop(r *ev.Rec) func(c c20Case) ev.Outcome {
 				o.Classes = append(o.Classes, s)
 			}
 		}
+		cl(c.Spell != 0, "interval_written_in_another_spelling")
+		cl(c.Spell%5 == 1 || c.Spell%5 == 4 || (c.Spell/5)%5 == 1 || (c.Spell/5)%5 == 4, "interval_count_zero_padded")
 		cl(dropped > 0, "has_dropped_record")
 		cl(wms >= 2, "two_or_more_watermarks")
 		cl(srcWMs > 0, "source_sends_own_watermarks")
@@ -325,6 +358,9 @@ var c20Resolutions = []int64{1, 2, 7, 1000, 1e6, 250e6, 1e9, 1e9, 1e9, 10e9, 60e
 
 func c20Gen(t *rapid.T) c20Case {
 	c := c20Case{TsFirst: rapid.IntRange(0, 4).Draw(t, "tsfirst") == 0}
+	if rapid.IntRange(0, 2).Draw(t, "spellvar") == 0 {
+		c.Spell = rapid.IntRange(1, 24).Draw(t, "spell")
+	}
 	switch rapid.IntRange(0, 9).Draw(t, "reskind") {
 	case 0:
 		c.Res = 0 // omitted
@@ -430,7 +466,7 @@ func c20GenFilter(t *rapid.T) c20Case {
 func TestC20(t *testing.T) {
 	r := ev.New("C20", "exploration",
 		"rapid cases: 0-10 records (id, ts) whose time field walks in quarter-resolution steps around a base (the epoch, just before it, 1900, 2017.5, random within +-2^60 ns), "+
-			"with duplicates, backward jumps around max_diff, time zones, retractions, pre-set event times and watermarks sent by the source itself; max_diff in [0, 2^59] ns, resolution in [1 ns, 1 h] or omitted (default 1 s); "+
+			"with duplicates, backward jumps around max_diff, time zones, retractions, pre-set event times and watermarks sent by the source itself; max_diff in [0, 2^59] ns, resolution in [1 ns, 1 h] or omitted (default 1 s); in a third of the cases the INTERVAL literals are written in an equivalent spelling (zero-padded count, the largest unit that divides the value, singular/plural/lower-case unit names); "+
 			"each case runs through the real SQL pipeline (optimised and not) over an in-memory table. Oracle: int64 floor-division model of the statement: watermark sequence = strictly increasing values of "+
 			"floor(max time, resolution) - max_diff; a record passes iff its time > watermark current at its arrival (before the first watermark everything passes), unchanged, event time = time field; "+
 			"no other watermark (the source's own) appears; record/watermark order of one step is free but no record may follow a watermark at or above its time. "+
